@@ -85,7 +85,14 @@ class T:
         if k == 4:   # if-init
             return ["if (var %s = %d; %s > %d) { print(%s) } else { print(\"no%s\") }" % (v, c2, v, c1, v, v)]
         if k == 5:   # blocks with and without declarations
-            kind = self.i(0, 4)
+            kind = self.i(0, 7)
+            if kind == 5:    # the only declaration of the block sits in an expression position: if-condition, call argument, interpolation
+                return ["var %s = %d" % (v, c1), "{ if (var %s = %s > %d) { print(%s) } }" % (w, v, c2, w), "var %s = 7" % w, "print(%s)" % w]
+            if kind == 6:
+                return ["{ print(var %s = %d) }" % (w, c1), "{ print(\"${var %s = %d}\") }" % (w, c2), "var %s = 8" % w, "print(%s)" % w]
+            if kind == 7:
+                return ["for (var %s = 0; %s < 3; ++%s) { if (var %s = %s > %d) { print(%s) } }" % (v, v, v, w, v, c1, v),
+                        "var %s = 0" % v, "while (%s < 2) { ++%s; print(var %s = %s * 2) }" % (v, v, w, v)]
             if kind == 0:
                 return ["{ print(%d) }" % c1, "{ { print(%d) } }" % c2]
             if kind == 1:
